@@ -214,39 +214,46 @@ def build_optimized_pattern(choices: list[ChoiceChoice], repeat: str = "") -> st
     if not choices:
         return ""
 
+    # Alternatives are tried in order. Single code point alternatives (single
+    # characters, ranges and Unicode properties) can be merged with their
+    # neighbours, but a multi-character literal must keep its position relative
+    # to everything else: `"a" | "ab"` must not become `ab|[a]`.
+    parts: list[str] = []
     char_class_parts: list[str] = []  # for single-char literals
     ranges: list[tuple[str, str]] = []  # for character ranges
-    multi_sensitive: list[str] = []  # for multi-char sensitive literals
-    insensitive_parts: list[str] = []  # for insensitive literals (scoped flag)
     unicode_props: list[str] = []  # for UnicodeProperty patterns
+
+    def flush() -> None:
+        parts.extend(unicode_props)
+        if char_class_parts or ranges:
+            parts.append(_optimize_char_class(char_class_parts, ranges))
+        unicode_props.clear()
+        char_class_parts.clear()
+        ranges.clear()
 
     for choice in choices:
         match choice:
             case UnicodePropertyRule(expression=RegexExpression(pattern=pattern)):
                 unicode_props.append(pattern)
-            case ChoiceLiteral(value=val, case=ChoiceCase.INSENSITIVE) if len(val) == 1:
+            case ChoiceLiteral(value=val, case=ChoiceCase.INSENSITIVE) if (
+                len(val) == 1 and len(val.upper()) == 1 and len(val.lower()) == 1
+            ):
                 char_class_parts.append(val.upper())
                 char_class_parts.append(val.lower())
             case ChoiceLiteral(value=val, case=ChoiceCase.INSENSITIVE):
-                insensitive_parts.append(f"(?i:{re.escape(val)})")
+                flush()
+                parts.append(f"(?i:{re.escape(val)})")
             case ChoiceLiteral(value=val, case=ChoiceCase.SENSITIVE) if len(val) == 1:
                 char_class_parts.append(val)
             case ChoiceLiteral(value=val, case=ChoiceCase.SENSITIVE):
-                multi_sensitive.append(re.escape(val))
+                flush()
+                parts.append(re.escape(val))
             case ChoiceRange(start, end):
                 ranges.append((start, end))
             case _:
                 raise ValueError(f"Unrecognized choice: {choice}")
 
-    parts: list[str] = []
-    if multi_sensitive:
-        parts.extend(multi_sensitive)
-    if insensitive_parts:
-        parts.extend(insensitive_parts)
-    if unicode_props:
-        parts.extend(unicode_props)
-    if char_class_parts or ranges:
-        parts.append(_optimize_char_class(char_class_parts, ranges))
+    flush()
 
     if not parts:
         return ""
